@@ -178,7 +178,9 @@ def generate(rng, index, tier):
     if settings['shares'] and rng.random() < 0.4:
         # slower executor: the start-up scan ends after the login, share counts are reported a second time
         plan['exec'] = {'delay_ms': rng.choice([[5, 40], [20, 400]])}
-    if loss_like and plan['stop_after'] is None and settings['reconnect'] and rng.random() < 0.3:
+    if loss_like and plan['stop_after'] is None and settings['reconnect'] and rng.random() < 0.1:
+        plan['relogin'] = 'eof'
+    elif loss_like and plan['stop_after'] is None and settings['reconnect'] and rng.random() < 0.3:
         plan['server_down'] = {'attempts': rng.choice([1, 1, 2, 3]), 'how': rng.choice(('refuse', 'refuse', 'blackhole'))}
     if rng.random() < 0.1:
         plan['server_omit'] = [rng.choice(['room_list', 'parent_min_speed', 'parent_speed_ratio', 'wishlist_interval'])]
@@ -257,6 +259,10 @@ def corpus(tier):
         for idx in range(0, BURST_MAX_INDEX + 1):
             for act in BURST_ACTIONS:
                 out.append(_plan(dict(RICH, timeout=1), state='burst', index=idx, trigger=trigger, action=act))
+    # 8. the re-login on the reconnected link is answered with an EOF
+    for how in ('rst', 'reset'):
+        for timeout in (1, 3):
+            out.append(_plan(dict(RICH, timeout=timeout), state='steady', action={'kind': 'loss', 'how': how}, relogin='eof'))
     # 6. the server is unreachable for the first reconnect attempts after the loss, then back
     for how in ('rst', 'reset', 'write_stall'):
         for n, unreachable in ((1, 'refuse'), (3, 'refuse'), (1, 'blackhole')):
@@ -398,11 +404,17 @@ def _run(world: World, plan):
         elif f['beh'] == 'silent':
             server.add_user_script[f['name']] = ['silent'] * 50
     logins_seen = [0]
+    relogin_eof = {}
     accepted = set()
     login_loss = {}
 
     def login_behaviour(session, message):
         logins_seen[0] += 1
+        if logins_seen[0] > 1 and plan.get('relogin') == 'eof':
+            # the login on the reconnected link is answered with an EOF (banned / logged in elsewhere)
+            world.net.fired['server_eof_on_relogin'] += 1
+            relogin_eof.setdefault('at', loop.time())
+            return 'eof'
         if logins_seen[0] > 1 or login_mode == 'accept':
             accepted.add(session.index)
             return 'accept'
@@ -911,6 +923,19 @@ def _run(world: World, plan):
                 world.violate('C16.reconnect_missing', **facts, connected=bool(new_attempts))
                 return
             world.probe('reconnected')
+            if plan.get('relogin') == 'eof':
+                # a server-side EOF never leads to a new connection - also when it answers the re-login
+                await wait_for(lambda: 'at' in relogin_eof, 20.0)
+                t_eof = relogin_eof.get('at', loop.time())
+                await sleep_until(t_eof + 5.0 * timeout + 2.0)
+                later = [a for a in world.net.connect_attempts
+                         if a['src'] == OWN and a['dst'] == 'server' and a['time'] > t_eof + 0.5]
+                if later:
+                    world.violate('C16.reconnect_spurious', **facts, reconnect_setting=reconnect_on, after='eof_on_relogin',
+                                  login_sent=logins_seen[0] > 2)
+                start_stop('stop')
+                await stop_flow()
+                return
             sess = new[0][1]
             current_session[0] = sess
             await wait_for(lambda: len([e for e in session_events if e[1] == 'init' and e[0] >= new[0][0]]) > 0, 10.0)
